@@ -171,6 +171,12 @@ func (s *Sim) collectUReps(ctx *StepCtx) []*URep {
 					cands = append(cands, c)
 				}
 			}
+			for _, c := range ctx.Ended {
+				// a session that ended in this very step may have reported just before
+				if c.CP == pm.SEID && s.nodeDst(c.Node) == o.Dst {
+					cands = append(cands, c)
+				}
+			}
 			if len(cands) == 1 {
 				x = cands[0]
 			}
@@ -309,6 +315,11 @@ func (s *Sim) checkC10(ctx *StepCtx, ureps []*URep) {
 				// ... but one a tick or the kernel produced on its own in this very step
 				// reaches the event loop before or after the session is gone
 				opt = k.Via == "multi" || k.Via == "mcast"
+			} else if e != nil && (k.Via == "multi" || k.Via == "mcast") {
+				// likewise when the session ended in this step in any other way
+				// (re-association, SEID-0 answer): served before the end it is delivered,
+				// after it it is dropped
+				x, opt = e, true
 			}
 		}
 		if x == nil {
